@@ -55,18 +55,24 @@ JudgeOk(r) ==
        THEN Verdict(r.rid, "C06", "reject", <<"reserved-prefix identifier of the input is captured / redeclared by an injected let", clash>>)
        ELSE Verdict(r.rid, "C06", "dev", {"dev:D9-reserved-prefix-identifier-in-unscanned-position"})
   ELSE
+  \* the DOCUMENTED effective configuration (Config.tla) decides what is enabled; the configuration the
+  \* code reports is compared with it by JudgeConfig and used for nothing else here
+  \E dcfg \in {LET E == Effective(r.raw) IN
+                [r.cfg EXCEPT !.plus = E.plus, !.tpl = E.tpl, !.alldsts = E.alldsts, !.verbosity = E.verbosity,
+                              !.methods = [i \in 1..Len(E.methods) |->
+                                             [src |-> E.methods[i].src, dst |-> E.methods[i].dst, bare |-> E.methods[i].bare]]]} :
   \E ci \in {Er(rin, EmptyEnv({}))} :
   \E e \in {IF modified THEN Er(rout, EmptyEnv(Injected(rout, rin))) ELSE ci} :
   \E m \in {Match(e, ci)} :
   \E marks \in {Marks(e)} :
-  \E sites \in {SitesOf(rin, Ctx0, r.cfg)} :
+  \E sites \in {SitesOf(rin, Ctx0, dcfg)} :
   \E pairs \in {IF m.ok THEN HookPairs(e, ci) ELSE {}} :
   \E hookedIds \in {{p[1] : p \in pairs}} :
   LET siteIdx == 1..Len(sites)
       missing == {i \in siteIdx : sites[i].req /\ sites[i].id \notin hookedIds}
       strayPairs == {p \in pairs : ~\E i \in siteIdx :
                         sites[i].id = p[1] /\ sites[i].en /\ sites[i].dst = p[2]}
-      alld == SetOfSeq(r.cfg.alldsts)
+      alld == SetOfSeq(dcfg.alldsts)
       strayNames == IF modified /\ ~r.in_mentions_ns THEN NamespaceRefs(rout) \ alld ELSE {}
       whys == {marks[i].hw : i \in 1..Len(marks)} \ {""}
       nhooks == Len(marks)                  \* hook call sites actually present in the output
@@ -98,7 +104,7 @@ JudgeOk(r) ==
   /\ IF ~m.ok THEN Verdict(r.rid, "C05", "na", "C02 failed")
      ELSE IF strayPairs # {} THEN Verdict(r.rid, "C05", "reject", <<"hook on an operation the configuration does not enable, or wrong hook name", strayPairs>>)
      ELSE IF strayNames # {} THEN Verdict(r.rid, "C05", "reject", <<"hook namespace dereferenced with unconfigured names", strayNames>>)
-     ELSE IF r.cfg.alldsts = <<>> /\ modified THEN Verdict(r.rid, "C05", "reject", "modified with an empty method list")
+     ELSE IF dcfg.alldsts = <<>> /\ modified THEN Verdict(r.rid, "C05", "reject", "modified with an empty method list")
      ELSE Verdict(r.rid, "C05", "ok", Cardinality({i \in siteIdx : ~sites[i].en}))
   \* ---- C06 (static half) : hygiene of injected temporaries in the real output
   /\ IF ~modified THEN Verdict(r.rid, "C06", "na", "not modified")
@@ -128,7 +134,7 @@ JudgeOk(r) ==
      THEN Verdict(r.rid, "C12", "reject", <<"not modified but", r.status, r.content_empty>>)
      ELSE Verdict(r.rid, "C12", "ok", r.status)
   \* ---- C15 : metrics equal what was emitted
-  /\ IF r.cfg.verbosity = "OFF"
+  /\ IF dcfg.verbosity = "OFF"
      THEN IF r.count = 0 /\ ~r.has_debug THEN Verdict(r.rid, "C15", "ok", "off")
           ELSE Verdict(r.rid, "C15", "reject", <<"verbosity off but", r.count, r.has_debug>>)
      ELSE IF r.count # nhooks /\ m.ok /\ D6Dev \in m.devs /\ r.count = Cardinality(pairs)
@@ -136,9 +142,9 @@ JudgeOk(r) ==
           \* are emitted twice and counted once
           THEN Verdict(r.rid, "C15", "dev", {D6Dev})
      ELSE IF r.count # nhooks THEN Verdict(r.rid, "C15", "reject", <<"count", r.count, "hook sites", nhooks>>)
-     ELSE IF r.cfg.verbosity = "DEBUG" /\ ~r.has_debug THEN Verdict(r.rid, "C15", "reject", "no debug breakdown")
-     ELSE IF r.cfg.verbosity # "DEBUG" /\ r.has_debug THEN Verdict(r.rid, "C15", "reject", "unexpected debug breakdown")
-     ELSE IF r.cfg.verbosity = "DEBUG" /\ m.ok /\
+     ELSE IF dcfg.verbosity = "DEBUG" /\ ~r.has_debug THEN Verdict(r.rid, "C15", "reject", "no debug breakdown")
+     ELSE IF dcfg.verbosity # "DEBUG" /\ r.has_debug THEN Verdict(r.rid, "C15", "reject", "unexpected debug breakdown")
+     ELSE IF dcfg.verbosity = "DEBUG" /\ m.ok /\
              \E tag \in hookedTags \cup dbgTags : tagCount(tag) # DebugCount(r.debug, tag)
      THEN Verdict(r.rid, "C15", "reject", <<"debug breakdown", r.debug, "hooked tags", hookedTags>>)
      ELSE IF r.mstatus # r.status \/ ~r.mfile_ok THEN Verdict(r.rid, "C15", "reject", "status/file echo")
